@@ -1,12 +1,21 @@
-"""C04: see props/cluster.py (one recorded trace family, this property's own formulas in Trace_Cluster.tla)."""
-from props import cluster
+"""C04: see props/cluster.py (one recorded trace family, this property's own formulas in Trace_Cluster.tla); plus the real
+two-goroutine runtime, where a validation can be interrupted by an election or a sync while it runs (props/runtime.py)."""
+import json
+from props import cluster, runtime
 
 PID = "C04"
 
 
+def _runtime(rep, tier, seed):
+    rep.assumptions += runtime.ASSUME
+    runtime.judge(rep, PID, tier, seed)
+
+
 def run(tier, seed):
-    return cluster.simple_check(PID, tier, seed)
+    return cluster.simple_check(PID, tier, seed, extra=_runtime)
 
 
 def replay(path, seed):
+    if json.load(open(path)).get("kind") == "runtime-run":
+        return runtime.simple_replay(PID, path, seed)
     return cluster.simple_replay(PID, path, seed)
